@@ -158,8 +158,49 @@ class HooksModule:
             raise AnalysisError(f"{self.rel}: register_hooks not found")
         if len(rh.args.args) != 1:
             raise AnalysisError(f"{self.rel}: register_hooks signature changed")
-        conv = rh.args.args[0].arg
         self.register_hooks_calls = []
+        self.resolver_first = None
+        parse_err = None
+        try:
+            self._parse_register_hooks(rh)
+        except AnalysisError as e:
+            # register_hooks is not the plain list of calls: only the semantic extraction can read it
+            parse_err = e
+            self.register_hooks_calls = None
+            self.register_order = []
+        # 1st choice: semantic extraction (micro-evaluator); 2nd: the syntactic table parser
+        self.extraction = None
+        fold_err = None
+        try:
+            regs, facs = fold_registrations(self)
+            self.registrations = regs
+            self.extraction = "folded"
+        except AnalysisError as e:
+            fold_err = e
+        if self.register_hooks_calls is None:
+            if self.extraction != "folded":
+                raise AnalysisError(f"{parse_err} (semantic extraction also failed: {fold_err})")
+            return
+        if self.resolver_first is None:
+            self.resolver_first = bool(self.register_order) and self.register_order[0] == "_resolve_forward_references"
+        parsed_regs = []
+        try:
+            saved = self.registrations
+            self.registrations = []
+            for fn, args in self.register_hooks_calls:
+                if args:
+                    self._register_fn(self.functions[fn])
+            parsed_regs = self.registrations
+            self.registrations = saved if self.extraction == "folded" else parsed_regs
+            if self.extraction is None:
+                self.extraction = "parsed"
+        except AnalysisError as e:
+            if self.extraction != "folded":
+                raise AnalysisError(f"{e} (semantic extraction also failed: {fold_err})")
+            self.registrations = saved
+
+    def _parse_register_hooks(self, rh):
+        conv = rh.args.args[0].arg
         for st in rh.body:
             call = None
             if isinstance(st, ast.Expr) and isinstance(st.value, ast.Call):
@@ -182,30 +223,6 @@ class HooksModule:
                 if not (len(call.args) == 1 and dotted(call.args[0]) == conv):
                     raise AnalysisError(f"{self.rel}:{st.lineno}: {fn} is not called with the converter")
             self.register_order.append(fn)
-        # 1st choice: semantic extraction (micro-evaluator); 2nd: the syntactic table parser
-        self.extraction = None
-        fold_err = None
-        try:
-            regs, facs = fold_registrations(self)
-            self.registrations = regs
-            self.extraction = "folded"
-        except AnalysisError as e:
-            fold_err = e
-        parsed_regs = []
-        try:
-            saved = self.registrations
-            self.registrations = []
-            for fn, args in self.register_hooks_calls:
-                if args:
-                    self._register_fn(self.functions[fn])
-            parsed_regs = self.registrations
-            self.registrations = saved if self.extraction == "folded" else parsed_regs
-            if self.extraction is None:
-                self.extraction = "parsed"
-        except AnalysisError as e:
-            if self.extraction != "folded":
-                raise AnalysisError(f"{e} (semantic extraction also failed: {fold_err})")
-            self.registrations = saved
 
     def _register_fn(self, fn: ast.FunctionDef):
         if len(fn.args.args) != 1:
@@ -567,14 +584,38 @@ def fold_registrations(hm: "HooksModule"):
                     pass
     regs, facs, preds = [], [], []
     hm.predicate_hooks = preds
-    for fn_name, args in hm.register_hooks_calls:
-        if not args:
-            continue
-        fn = hm.functions[fn_name]
-        conv_name = fn.args.args[0].arg
+    # lexical home of every nested function: the hook's `converter` is the parameter of the function around it
+    enclosing = {}
+    for f in hm.functions.values():
+        for n_ in ast.walk(f):
+            if n_ is not f and isinstance(n_, (ast.FunctionDef, ast.Lambda)):
+                enclosing.setdefault(id(n_), f)
+    events = []
 
-        def mk_reg(fn_name=fn_name, conv_name=conv_name):
+    class _Here:
+        """where a registration happens: the innermost module-level function on the evaluator's call stack"""
+        def __init__(self, default=None):
+            self.default = default
+
+        def fn(self, hook=None):
+            node = getattr(hook, "node", None)
+            f = enclosing.get(id(node)) if node is not None else None
+            if f is None:
+                for c in reversed(getattr(it, "call_stack", [])):
+                    if c in hm.functions.values() and c.name != "register_hooks":
+                        f = c
+                        break
+            if f is None:
+                f = self.default
+            if f is None or not f.args.args:
+                raise AnalysisError(f"{hm.rel}: cannot tell which function registers a hook")
+            return f.name, f.args.args[0].arg
+
+    def make_conv(here):
+        def mk_reg():
             def register(key, hook=None):
+                fn_name, conv_name = here.fn(hook)
+                events.append("register")
                 if hook is None:
                     raise AnalysisError(f"{hm.rel}: decorator form of register_structure_hook is not modelled")
                 tv = to_ty(key)
@@ -587,23 +628,56 @@ def fold_registrations(hm: "HooksModule"):
                 regs.append(r_)
             return ("host", register)
 
-        def mk_fac(direction, fn_name=fn_name):
+        def mk_fac(direction):
             def r(pred, factory=None):
+                fn_name, _c = here.fn(factory)
+                events.append("register")
                 facs.append((direction, pred, factory, fn_name))
                 return factory
             return ("host", r)
-        def mk_pred(fn_name=fn_name, conv_name=conv_name):
+
+        def mk_pred():
             def r(pred, hook):
+                fn_name, conv_name = here.fn(hook)
+                events.append("register")
                 if not isinstance(hook, Closure):
                     raise AnalysisError(f"{hm.rel}: a predicate structure hook in {fn_name} is not a package function")
                 preds.append((pred, hook, fn_name, conv_name))
             return ("host", r)
-        conv = Record("Converter", {"register_structure_hook": mk_reg(),
+        return Record("Converter", {"register_structure_hook": mk_reg(),
                                     "register_structure_hook_func": mk_pred(),
                                     "register_structure_hook_factory": mk_fac("structure"),
                                     "register_unstructure_hook_factory": mk_fac("unstructure")})
+
+    # the resolver touches attrs and a lock; it is folded on its own (C03) and only its position matters here
+    if "_resolve_forward_references" in hm.functions:
+        it.globals["_resolve_forward_references"] = ("host", lambda: events.append("resolve"))
+    whole_err = None
+    try:
+        it.call(hm.functions["register_hooks"], [make_conv(_Here())])
+        whole = True
+    except Raised as e:
+        whole, whole_err = False, f"register_hooks raises {e.exc_name} when folded"
+    except AnalysisError as e:
+        whole, whole_err = False, str(e)
+    if whole:
+        hm.resolver_first = "resolve" in events and events.index("resolve") == 0
+        seen_fns = []
+        for r_ in regs:
+            if r_.register_fn not in seen_fns:
+                seen_fns.append(r_.register_fn)
+        if hm.register_hooks_calls is None:
+            hm.register_order = (["_resolve_forward_references"] if hm.resolver_first else []) + seen_fns
+        return regs, facs
+    if hm.register_hooks_calls is None:
+        raise AnalysisError(f"{hm.rel}: {whole_err}")
+    del regs[:], facs[:], preds[:], events[:]
+    for fn_name, args in hm.register_hooks_calls:
+        if not args:
+            continue
+        fn = hm.functions[fn_name]
         try:
-            it.call(fn, [conv])
+            it.call(fn, [make_conv(_Here(fn))])
         except Raised as e:
             raise AnalysisError(f"{hm.rel}: {fn_name} raises {e.exc_name} when folded")
     return regs, facs
